@@ -29,6 +29,8 @@ R = [
  ("r23_observe_set_options", "src/packet.rs", [("        self.clear_option(CoapOption::Observe);\n        self.add_option_as(CoapOption::Observe, OptionValueU32(value));", "        self.set_options_as(\n            CoapOption::Observe,\n            LinkedList::from([OptionValueU32(value)]),\n        );")]),
  ("r24_apply_error_match", "src/request.rs", [("        if let Some(reply) = &mut self.response {\n            if let Some(code) = error.code {", "        if let (Some(reply), Some(code)) = (&mut self.response, error.code) {\n            {")]),
  ("r25_unquote_to_cow_let", "src/link_format.rs", [("            if str_ref.find('\\\\').is_some() {\n                Cow::from(self.to_string())", "            let has_escape = str_ref.find('\\\\').is_some();\n            if has_escape {\n                Cow::from(self.to_string())")]),
+ ("r30_attr_u32_write_fmt", "src/link_format.rs", [("            self.0.error = write!(self.0.write, \"{}\", value).err();", "            self.0.error =\n                self.0.write.write_fmt(format_args!(\"{}\", value)).err();")]),
+ ("r32_changed_get_mut", "src/observe.rs", [("        self.resources\n            .entry(resource.to_string())\n            .and_modify(|resource| {\n                resource.sequence += 1;", "        if let Some(resource) = self.resources.get_mut(resource) {\n            {\n                resource.sequence += 1;"), ("                        <= u16::from(unacknowledged_limit)\n                });\n            });\n    }", "                        <= u16::from(unacknowledged_limit)\n                });\n            }\n        }\n    }")]),
  ("r15_block_value_u64_shift", "src/block_handler/block_value.rs", [("        let more = scalar >> 3 & 0x1 == 0x1;", "        let more = (scalar & 0x8) != 0;")]),
 ]
 os.makedirs(OUT, exist_ok=True)
